@@ -27,7 +27,8 @@ def bounds(tier):
     return {'decoders': 'every BSC_*/MSC_* name registered in TracesParser.handlers and present in the bundled table',
             'START words': 'a0..a3 free 64-bit', 'END words': 'r0..r3 free 64-bit; second END r0\'..r3\' free (2-copy)',
             'lookups': 'structures: 1 lookup of 3 symbolic non-NUL ASCII bytes' + ('' if tier == 'quick' else '; 0 lookups; 1 lookup of 30 bytes'),
-            'window': 'START, [lookup records], END on one thread; no unrelated records'}
+            'window': 'START, [lookup records], END on one thread; no unrelated records; lost-end structures: an earlier '
+                      'START of the same call (free words) whose END never arrives'}
 
 
 PROBES = ['MSC_mach_vm_protect_trap', 'MSC_mach_port_guard_trap', 'BSC_read', 'BSC_mmap']
@@ -39,6 +40,8 @@ def structures(tier):
         if tier == 'thorough' or n.startswith('MSC_') or sweep.weight({'name': n}) == 1 and sum(n.encode()) % 4 == 0:
             sts.append({'name': n, 'kind': 'history'})
         sts.append({'name': n, 'lookups': 1, 'len': 3})
+        if tier == 'thorough' or n in PROBES or sum(n.encode()) % 16 == 0:
+            sts.append({'name': n, 'kind': 'lost-end'})
         if tier == 'thorough':
             sts.append({'name': n, 'lookups': 0})
             sts.append({'name': n, 'lookups': 1, 'len': 30})
@@ -53,6 +56,36 @@ def _forms(ak):
     # lossless: the word itself or all 64 bits read as signed; tolerated: the low 32 bits as an unsigned value (a masked
     # 32-bit C argument).  A sign-extended 32-bit truncation loses bits AND changes the sign: not a rendering of the word.
     return [t, z3.ZeroExt(W - 32, lo32), z3.SignExt(W - 64, lo64)]
+
+
+def _admits(shown, ak):
+    """z3 Bool: the 128-bit value `shown` is an admitted rendering of the word ak.  Besides _forms: the low 32 bits read as
+    a signed C int when that is a small negative number (-4096..-1: the sentinel idiom, e.g. (gid_t)-1 shown as -1); a
+    large-magnitude sign-extended truncation (an off_t shown through c_int32) is not a rendering of the word."""
+    t = term(ak)
+    s32 = z3.SignExt(W - 32, z3.Extract(31, 0, t))
+    small = z3.And(s32 < 0, s32 >= -4096)
+    return Or(*([mkb(shown == f) for f in _forms(ak)] + [mkb(z3.And(shown == s32, small))]))
+
+
+def run_lost_end(ctx, st):
+    """an earlier START of the same call on the same thread whose END was lost: the later START..END pair is still
+    rendered from its own START"""
+    name = st['name']
+    a = [ctx.int('a%d' % i) for i in range(4)]
+    r = [ctx.int('r%d' % i) for i in range(4)]
+    b = [ctx.int('b%d' % i) for i in range(4)]
+    o1 = sweep.run_window(ctx, name, a, r)
+    if o1.kind != 'text':
+        ctx.reach('outcome:' + o1.kind); ctx.reach(); return
+    o2 = sweep.run_window(ctx, name, a, r, lost=[b])
+    L = 'C09/%s' % name
+    if o2.kind != 'text':
+        ctx.check(L + '/after-lost-END', False, 'with an unfinished earlier call: ' + o2.kind)
+    else:
+        ctx.check(L + '/after-lost-END', sweep.pieces_equal(o1.pieces, o2.pieces) if ctx.symbolic else o1.text == o2.text,
+                  'the call is rendered differently after an unfinished earlier call of the same kind')
+    ctx.reach()
 
 
 def run_history(ctx, st):
@@ -83,6 +116,8 @@ def run_history(ctx, st):
 def run(ctx, st):
     if st.get('kind') == 'history':
         return run_history(ctx, st)
+    if st.get('kind') == 'lost-end':
+        return run_lost_end(ctx, st)
     name = st['name']
     a = [ctx.int('a%d' % i) for i in range(4)]
     r = [ctx.int('r%d' % i) for i in range(4)]
@@ -110,18 +145,14 @@ def run(ctx, st):
                 # to a value that renders that way; a bare 0 stands for 'nothing set' in flag positions and is not judged
                 v = int(core[0], 0)
                 if v != 0:
-                    t = term(a[k])
-                    lo32 = z3.Extract(31, 0, t)
-                    forms = _forms(a[k]) + [z3.SignExt(W - 32, lo32)]
-                    ctx.check('%s/pos%d' % (L, k), Or(*[mkb(f == z3.BitVecVal(v, W)) for f in forms]),
+                    ctx.check('%s/pos%d' % (L, k), _admits(z3.BitVecVal(v, W), a[k]),
                               'position %d shows the constant %s' % (k, core[0]))
             nums = [at for at in sweep.atoms_of(core) if at.is_numeric()]
             for at in nums:
                 if k >= 4:
                     ctx.check('%s/pos%d' % (L, k), False, 'numeric parameter beyond the four recorded arguments')
                 else:
-                    ctx.check('%s/pos%d' % (L, k), Or(*[mkb(at.term == f) for f in _forms(a[k])]),
-                              'position %d renders %s' % (k, at.describe()))
+                    ctx.check('%s/pos%d' % (L, k), _admits(at.term, a[k]), 'position %d renders %s' % (k, at.describe()))
         else:
             txt = ''.join(core)
             lits = _NUM.findall(_QUOTED.sub('""', txt))
@@ -131,7 +162,7 @@ def run(ctx, st):
                 else:
                     lo = a[k] & 0xffffffff
                     s32 = lo - (1 << 32) if lo >> 31 else lo
-                    ok = any(lit in (str(f), hex(f)) for f in _cforms(a[k]) + ([s32] if lit == core_text(core) else []))
+                    ok = any(lit in (str(f), hex(f)) for f in _cforms(a[k]) + ([s32] if -4096 <= s32 < 0 else []))
                     # a literal that is part of the decoder's fixed text (e.g. a literal 0 for an empty flag list)
                     # cannot be told from a rendered word concretely; the symbolic run only judges rendered words
                     ctx.check('%s/pos%d' % (L, k), ok, 'position %d shows %s for a%d=%#x' % (k, lit, k, a[k]))
